@@ -297,8 +297,9 @@ fn compare(a: &Act, before: &Snap, after: &Snap, m: &mut RefSubject, model_befor
                     }
                 }
                 // sequence
-                if !model_before.resources.contains_key(p) {
-                    // a new entry: the number it starts from is not fixed by the properties; follow the implementation
+                if !model_before.resources.contains_key(p) || before.get(p).is_none() {
+                    // a new entry (also: an entry the implementation had dropped together with its last observer and
+                    // now creates again): the number it starts from is not fixed by the properties; follow the implementation
                     m.resources.get_mut(p).unwrap().sequence = *seq as u64;
                     continue;
                 }
